@@ -34,6 +34,9 @@ ENUM_TYPES = {
     # qualname in two modules, two levels deep, an int-mixin one
     ('ptasks', 'Variant'): ['SMALL', 'LARGE'], ('ptasks', 'ModelA.Variant'): ['SMALL', 'LARGE'], ('ptasks', 'ModelB.Variant'): ['SMALL', 'LARGE'],
     ('ptasks2', 'ModelA.Variant'): ['SMALL', 'LARGE'], ('ptasks', 'Outer.Inner.Kind'): ['SMALL', 'OTHER'], ('ptasks', 'ModelA.Level'): ['LOW', 'HIGH'],
+    # Flag enums: members, combinations ('R|W'), the empty flag and - IntFlag - values without a member ('8', 'A|8');
+    # the names are the ones the serialiser writes (D27)
+    ('ptasks', 'Perm'): ['R', 'W', 'R|W', 'R|W|X', '0'], ('ptasks', 'Bits'): ['A', 'B', 'A|B', '8', '16', 'A|8', '0'],
 }
 # the bare value a mixin enum member is an instance of (and Python-equal to), as a spec
 MIXIN_VALUE = {}
@@ -153,6 +156,23 @@ def _xkey(kind):
     return {'int': 1, 'none': None, 'tuple': (1, 2), 'float': 2.5, 'bytes': b'k', 'bool': True, 'enum': ptasks.Color.RED}[kind]
 
 
+def enum_member(cls, name):
+    """the member a serialised enum name denotes; for Flag enums also combinations ('R|W'), values without a
+    member ('8', 'A|8') and the empty flag ('0')"""
+    try:
+        return cls[name]
+    except KeyError:
+        out = cls(0)
+        for part in name.split('|'):
+            out |= cls[part] if part in cls.__members__ else cls(int(part))
+        return out
+
+
+def enum_name(v):
+    """the name the serialiser writes for an enum member (unnamed Flag values are written by value)"""
+    return v.name if v.name is not None else str(v.value)
+
+
 def cls_of(mod, qual):
     """the class `qual` (a qualified name: 'Leaf', 'ModelA.Variant') of module `mod`"""
     obj = importlib.import_module(mod)
@@ -186,7 +206,7 @@ def build(spec):
         # a str given by its code points (may hold lone surrogates, which JSON replay files cannot carry as text)
         return ''.join(chr(c) for c in spec[1])
     if t == 'enum':
-        return cls_of(spec[1], spec[2])[spec[3]]
+        return enum_member(cls_of(spec[1], spec[2]), spec[3])
     if t == 'list':
         return [build(s) for s in spec[1]]
     if t == 'tuple':
@@ -264,7 +284,7 @@ def show(v, canon=False):
     if type(v) is str:
         return 'S' + hx(v)
     if isinstance(v, Enum):
-        return 'E%s:%s:%s' % (tuple(hx(x) for x in model_ref(type(v).__module__, type(v).__qualname__)) + (hx(v.name),))
+        return 'E%s:%s:%s' % (tuple(hx(x) for x in model_ref(type(v).__module__, type(v).__qualname__)) + (hx(enum_name(v)),))
     if type(v) is tuple:
         return 'T%d(%s)' % (len(v), ','.join(show(i) for i in v))
     if type(v) is frozendict:
